@@ -105,13 +105,15 @@ type diffHooks struct {
 	// usePo: serve templates and labels through resource.PoResource over generated
 	// gettext catalogues
 	usePo bool
+	// prior (Mode.Reuse): requests of an earlier session, served through the same persister
+	prior []BS
 }
 
 // modelDiff serves the history on the real engine and on the model and compares.
 func modelDiff(a *app.App, inputs []BS, mode app.Mode, asp diffAspects, hooks *diffHooks) (v *Violation, f diffFeatures, discard string) {
 	var storage app.Storage
 	cleanup := func() {}
-	if mode.Kind != "long" {
+	if mode.Kind != "long" && mode.Kind != "objects" {
 		storage, cleanup = newStorage(mode.Backend)
 	}
 	defer cleanup()
@@ -126,7 +128,22 @@ func modelDiff(a *app.App, inputs []BS, mode app.Mode, asp diffAspects, hooks *d
 		shared.UsePo, shared.PoDir = true, dir
 	}
 	real := app.NewSession(shared, mode, storage)
-	m := model.New(a, mode.Kind == "persist")
+	if mode.Reuse != "" {
+		real.PeBox = &app.PeBox{}
+		if hooks != nil && len(hooks.prior) > 0 {
+			pred := app.NewSession(shared, mode, storage)
+			pred.Cfg.SessionId = "earlier-session"
+			pred.PeBox = real.PeBox
+			for _, in := range hooks.prior {
+				if st := pred.Request([]byte(in)); st.Panic != "" || st.Exceeded {
+					// nobody keeps using the objects a panic went through
+					real.PeBox.Pe = nil
+					break
+				}
+			}
+		}
+	}
+	m := model.New(a, mode.PerRequest())
 	seenNodes := map[string]int{}
 	for i, inb := range inputs {
 		in := string(inb)
@@ -196,7 +213,7 @@ func modelDiff(a *app.App, inputs []BS, mode app.Mode, asp diffAspects, hooks *d
 			return at("exec-error-differs", "execution error: implementation %q, documented semantics: %v (%s)", rs.ExecErr, ms.ExecErr, ms.ErrWhy), f, ""
 		}
 		if ms.ExecErr {
-			if mode.Kind == "persist" && ms.Bail == "" {
+			if mode.PerRequest() && ms.Bail == "" {
 				// of the failed request itself only this is compared: a value that was refused
 				// is not what the cache remembers as its last value; the next request starts over
 				if asp.cache && rs.After != nil && rs.After.Last != m.Last && strings.Contains(ms.ErrWhy, "limit") {
@@ -422,7 +439,7 @@ func modelDiff(a *app.App, inputs []BS, mode app.Mode, asp diffAspects, hooks *d
 			// above) is where the code left it, and the history goes on
 			f.renderErrors++
 		}
-		if !rs.Cont && mode.Kind != "persist" {
+		if !rs.Cont && !mode.PerRequest() {
 			return nil, f, ""
 		}
 	}
